@@ -32,6 +32,9 @@ func init() {
 			{"C03-R4b", "EDS reports delta semantics exactly when it may omit unchanged clusters", c03r4b},
 			{"C03-R5", "generator-managed names are recorded by the generator", c03r5},
 			{"C03-R6", "no computed set is dropped in the subscription book-keeping", c03r6},
+			{"C03-R7", "an index over the watched names keeps every name", c03r7},
+			{"C03-R8", "the delta CDS scope diff looks at the ports of services that stay in scope", c03r8},
+			{"C03-R9", "the scope's DestinationRule index covers every rule the scope depends on", c03r9},
 			{"C03-R3b", "the forced EDS push after a delta CDS answer is unconditional (shared with C05-R9)", c05r9},
 		},
 	})
